@@ -63,7 +63,7 @@ def parseWitItem (t : String) : Option Item :=
   if t == "empty" then some (.num 0)
   else if t.startsWith "sig(" then
     match (stripBr (t.drop 3).toString).splitOn ";" with
-    | [k, ht] => ht.toNat?.map fun h => .sig (parseKey k) h true
+    | [k, ht] => ht.toNat?.map fun h => .sig (parseKey k) h .final
     | _ => none
   else if t.startsWith "key(" then some (.key (parseKey (stripBr (t.drop 3).toString)))
   else if t == "pre(h)" then some (.pre 0)
